@@ -105,6 +105,7 @@ Definition get_domain (e : err) : str :=
 (* GetContextTags: outermost first; every buffer as (key, ValueStr) pairs *)
 Definition get_context_tags (e : err) : list (list (str * str)) :=
   flat_map (fun c => match c with
+                     | Wrap _ (WContext [] _) _ => []     (* a layer with only redacted tags has no buffer *)
                      | Wrap _ (WContext tags _) _ =>
                        [List.map (fun kv => (fst kv, match snd kv with
                                                      | TVNil => [] | TVStr s => s
